@@ -1,7 +1,7 @@
 """C14 - note sections and segments yield every note exactly once; stabs."""
 from symx.api import H
 from spec import enc
-from harness.elfkit import stream_length
+from harness.elfkit import stream_length, elf_object
 from spec import registry as REG
 
 PROPERTY = 'C14'
@@ -17,16 +17,8 @@ OUTSIDE = ['names / descriptors longer than 8 bytes in the symbolic-size step (s
 CLS = {'0': (0, 0), 'A': (1, 4), 'B': (5, 8)}
 
 
-class _Elf:
-    def __init__(self, ctx, stream, little, elfclass, core=False, machine='EM_X86_64'):
-        S = ctx.lib('elf.structs')
-        self.stream = stream
-        self.stream_len = stream_length(stream)
-        self.little_endian = little
-        self.elfclass = elfclass
-        self.structs = S.ELFStructs(little_endian=little, elfclass=elfclass)
-        self.structs.create_basic_structs()
-        self.structs.create_advanced_structs('ET_CORE' if core else 'ET_EXEC', machine, None)
+def _Elf(ctx, stream, little, elfclass, core=False, machine='EM_X86_64'):
+    return elf_object(ctx, stream, elfclass, little, machine, 'ET_CORE' if core else 'ET_EXEC')
 
 
 def _pad4(n):
